@@ -1,4 +1,169 @@
-use anyhow::Result;
-pub async fn cmd_reqrep(_args: Vec<String>) -> Result<()> {
+//! C04: concurrent request() calls on cloned requestors and on separate requestor streams
+//! against a scripted replier that speaks the wire protocol directly (answers in any order,
+//! late, twice or never).
+use super::*;
+use rand::seq::SliceRandom;
+use selium_protocol::{BiStream, Frame, MessagePayload, ReplierPayload, TopicName};
+use std::collections::HashMap;
+
+const TIMEOUT_MS: u64 = 300;
+
+async fn register_raw_replier(conn: &quinn::Connection, topic: &str) -> Result<BiStream> {
+    let mut st = raw_stream(conn).await?;
+    st.send(Frame::RegisterReplier(ReplierPayload { topic: TopicName::try_from(topic)? })).await?;
+    match st.next().await {
+        Some(Ok(Frame::Ok)) => Ok(st),
+        other => Err(anyhow!("replier registration refused: {:?}", other.map(|r| r.map(|f| f.get_type())))),
+    }
+}
+
+fn call_of(payload: &[u8]) -> u64 {
+    // requests are StringCodec strings "call<k>:..."
+    let s = String::from_utf8_lossy(payload);
+    s.strip_prefix("call").and_then(|r| r.split(':').next()).and_then(|k| k.parse().ok()).unwrap_or(0)
+}
+
+async fn reqrep_case(client: &Client, raw: &quinn::Connection, log: &EvLog, run: u64, case: &Value, topic: &str, rng: &mut StdRng) -> Result<()> {
+    let calls: Vec<(u64, String)> = case["calls"].as_array().unwrap().iter().map(|c| (c["s"].as_u64().unwrap(), c["mode"].as_str().unwrap().to_string())).collect();
+    log.emit("case", json!({"run": run, "calls": case["calls"]}));
+    let mut replier = register_raw_replier(raw, topic).await?;
+    let open = || async {
+        client
+            .requestor(topic)
+            .with_request_encoder(StringCodec)
+            .with_reply_decoder(StringCodec)
+            .with_request_timeout(Duration::from_millis(TIMEOUT_MS))?
+            .open()
+            .await
+    };
+    let a = open().await?;
+    let a2 = a.clone();
+    let b = open().await?;
+    let n = calls.len();
+    let mut handles = vec![];
+    for (k, (s, _)) in calls.iter().enumerate() {
+        let c = k as u64 + 1;
+        let mut h = match (s, k % 2) {
+            (1, 0) => a.clone(),
+            (1, _) => a2.clone(),
+            _ => b.clone(),
+        };
+        let payload = format!("call{}:{:08x}", c, rng.gen::<u32>());
+        log.emit("call_start", json!({"c": c, "s": s}));
+        handles.push(tokio::spawn(async move {
+            let r = h.request(payload).await;
+            (c, r)
+        }));
+    }
+    // the replier collects the requests
+    let mut got: Vec<(u64, MessagePayload)> = vec![];
+    while got.len() < n {
+        match tokio::time::timeout(Duration::from_secs(5), replier.next()).await {
+            Ok(Some(Ok(Frame::Message(p)))) => {
+                let c = call_of(&p.message);
+                log.emit("replier_got", json!({"c": c, "cid": p.headers.as_ref().and_then(|h| h.get("cid").cloned()), "rid": p.headers.as_ref().and_then(|h| h.get("req_id").cloned())}));
+                got.push((c, p));
+            }
+            _ => break,
+        }
+    }
+    let t_recv = tokio::time::Instant::now();
+    // ... and answers in a shuffled order according to the script
+    got.shuffle(rng);
+    let mut late: Vec<(u64, MessagePayload)> = vec![];
+    for (c, p) in got {
+        let mode = calls.get(c as usize - 1).map(|x| x.1.as_str()).unwrap_or("never");
+        let reply = Frame::Message(MessagePayload { headers: p.headers.clone(), message: Bytes::from(format!("re:{}", String::from_utf8_lossy(&p.message))) });
+        match mode {
+            "now" => replier.send(reply).await?,
+            "dup" => {
+                replier.send(reply.clone()).await?;
+                replier.send(reply).await?;
+            }
+            "late" => late.push((c, p)),
+            _ => {}
+        }
+        log.emit("reply_script", json!({"c": c, "mode": mode}));
+    }
+    let mut results: HashMap<u64, String> = HashMap::new();
+    for h in handles {
+        let (c, r) = h.await?;
+        let (res, val_call) = match r {
+            Ok(v) => ("ok".to_string(), v.strip_prefix("re:").map(|x| call_of(x.as_bytes())).unwrap_or(0)),
+            Err(selium::std::errors::SeliumError::RequestTimeout) => ("timeout".to_string(), 0),
+            Err(e) => (format!("err: {e}"), 0),
+        };
+        results.insert(c, res.clone());
+        log.emit("call_ret", json!({"c": c, "res": res, "val_call": val_call}));
+    }
+    // late replies go out once every call has long timed out ...
+    let since = t_recv.elapsed();
+    if since < Duration::from_millis(TIMEOUT_MS * 2) {
+        tokio::time::sleep(Duration::from_millis(TIMEOUT_MS * 2) - since).await;
+    }
+    for (_, p) in &late {
+        let reply = Frame::Message(MessagePayload { headers: p.headers.clone(), message: Bytes::from(format!("re:{}", String::from_utf8_lossy(&p.message))) });
+        replier.send(reply).await?;
+    }
+    // ... right before later requests on both streams, which must get their own replies
+    let mut later = vec![];
+    for (s, mut h) in [(1u64, a.clone()), (2u64, b.clone())] {
+        let payload = format!("call{}:{:08x}", 100 + s, rng.gen::<u32>());
+        later.push(tokio::spawn(async move { (s, h.request(payload).await) }));
+    }
+    for _ in 0..2 {
+        if let Ok(Some(Ok(Frame::Message(p)))) = tokio::time::timeout(Duration::from_secs(5), replier.next()).await {
+            let reply = Frame::Message(MessagePayload { headers: p.headers.clone(), message: Bytes::from(format!("re:{}", String::from_utf8_lossy(&p.message))) });
+            replier.send(reply).await?;
+        }
+    }
+    for h in later {
+        let (s, r) = h.await?;
+        let (res, own) = match r {
+            Ok(v) => ("ok".to_string(), v.strip_prefix("re:").map(|x| call_of(x.as_bytes())).unwrap_or(0) == 100 + s),
+            Err(selium::std::errors::SeliumError::RequestTimeout) => ("timeout".to_string(), false),
+            Err(e) => (format!("err: {e}"), false),
+        };
+        log.emit("later_ret", json!({"s": s, "res": res, "own": own}));
+    }
+    log.emit("done", json!({}));
+    Ok(())
+}
+
+pub async fn cmd_reqrep(args: Vec<String>) -> Result<()> {
+    let env = setup(&args, "reqrep")?;
+    let seed: u64 = arg(&args, "--seed").and_then(|s| s.parse().ok()).unwrap_or_else(seed_from_env);
+    let cases = std::sync::Arc::new(read_cases(&arg(&args, "--cases").unwrap()));
+    let par: usize = arg(&args, "--par").and_then(|s| s.parse().ok()).unwrap_or(12);
+    let mut handles = vec![];
+    for w in 0..par {
+        let cases = cases.clone();
+        let log = env.log.clone();
+        let certs = env.certs.clone();
+        let addr = env.server.addr;
+        handles.push(tokio::spawn(async move {
+            let client = connect_client(addr, &certs, BackoffStrategy::constant().with_max_attempts(0)).await?;
+            let raw = raw_connect_trusted(addr, &certs).await?;
+            let mut k = w;
+            while k < cases.len() {
+                let run = k as u64 + 1;
+                let mut rng = StdRng::seed_from_u64(seed.wrapping_mul(104729).wrapping_add(run));
+                let topic = format!("/verifrr{}/case{}", seed % 1000, run);
+                let clog = EvLog::new(Box::new(std::io::sink()));
+                if let Err(e) = reqrep_case(&client, &raw, &clog, run, &cases[k], &topic, &mut rng).await {
+                    clog.emit("harness_error", json!({"err": e.to_string()}));
+                }
+                log.append_block(&clog);
+                k += par;
+            }
+            Ok::<(), anyhow::Error>(())
+        }));
+    }
+    for h in handles {
+        h.await??;
+    }
+    env.log.flush();
+    let _ = std::fs::remove_dir_all(&env.certs);
+    println!("{}", json!({"runs": cases.len(), "events": env.log.lines()}));
     Ok(())
 }
